@@ -17,6 +17,8 @@ NF = {'transient': 'urn:oasis:names:tc:SAML:2.0:nameid-format:transient', 'persi
 VALUES = {
     'plain': 'Alice', 'lt': 'a<b', 'amp-entity': 'x&amp;y', 'quotes': 'q"\'q', 'cdata-end': 'a]]>b', 'comment': 'a<!--x-->b',
     'lookalike': 'v</saml:AttributeValue><saml:AttributeValue>w', 'lead-ws': '  lead', 'trail-ws': 'trail  ', 'inner-ws': 'in  ner\ttab',
+    'backslash-d': 'EXAMPLE\\derek', 'win-path': 'C:\\new\\table\\readme.txt', 'double-backslash': 'a\\\\b', 'group-ref': 'x\\1y\\g<0>z',
+    'dollar': '$1 ${x} \\$', 'percent': '100% %s %(x)s', 'braces': '{0} {x} }{',
     'newline': 'line1\nline2', 'latin': 'é', 'euro': '€uro', 'astral': 'smile\U0001F600', 'long': 'L' * 4096, 'pi': '<?x y?>', 'entity-ref': '&lt;&#65;',
 }
 ALG = dict(forge.SIG_ALGS)
@@ -46,9 +48,10 @@ def world_for(policy, wants):
     sp = world.make_sp(TMP[0], [idp_md], want_response_signed=wants[0], want_assertions_signed=wants[1],
                        want_assertions_or_response_signed=wants[2])
     idp = world.make_idp(TMP[0], [sp_md], policy=POLICIES[policy])
+    _c['sp_md'] = sp_md
     _c[k] = (idp, sp)
-    if len(_c) > 12:
-        _c.pop(next(iter(_c)))
+    if len(_c) > 13:
+        _c.pop(next(k2 for k2 in _c if k2 != 'sp_md'))
     return _c[k]
 
 
@@ -108,15 +111,67 @@ def cells(thorough):
         if not thorough and nf not in ('transient', 'email') and vname not in ('plain', 'lt'):
             continue
         vals = tuple([vname] + ['plain', 'latin', 'lt', 'inner-ws'][:count - 1])
-        out.append(dict(base, values=vals, count=count, nf=nf, sr=sr, sa=sa, enc=enc, wants=(sr, sa, False), extra_attr=True))
+        for binding in (POST, REDIR, SOAP):
+            if binding != POST and not thorough and (count != 1 or nf != 'transient'):
+                continue
+            out.append(dict(base, values=vals, count=count, nf=nf, sr=sr, sa=sa, enc=enc, wants=(sr, sa, False), extra_attr=True,
+                            binding=binding))
     out.append(dict(base, values=(), count=0))
     # C. lifetime / policy / session expiry / authn context
     for pol, snooa, auth in itertools.product(POLICIES, (None, 900), (False, True)):
         out.append(dict(base, policy=pol, snooa=snooa, authority=auth))
+    # D. the subject identifier chosen by the IdP itself (userid + NameIDPolicy) on one long-lived Server: every
+    #    sequence of logins of two users with two formats up to length 3 (4 in the thorough tier)
+    ops = [(u, f) for u in ('alice', 'bob') for f in ('persistent', 'transient')]
+    for n in range(1, (4 if thorough else 3) + 1):
+        for seq in itertools.product(ops, repeat=n):
+            out.append(dict(base, logins=[list(o) for o in seq], sr=False, wants=(False, False, False)))
     return out
 
 
+def evaluate_logins(c):
+    """Section D: logins on one fresh Server; the SP must read an identifier of the requested format that the IdP maps
+    back to the user, and a persistent one must stay the same."""
+    from saml2_tophat import samlp
+    env.Clock.set(env.BASE)
+    env.reset_rng()
+    _idp, sp = world_for(c['policy'], tuple(c['wants']))
+    idp = world.make_idp(TMP[0], [_c['sp_md']], policy=POLICIES[c['policy']])
+    persistent = {}
+    for step, (user, fmt) in enumerate(c['logins']):
+        rid = 'req%d' % (step + 1)
+        try:
+            resp = idp.create_authn_response({'givenName': [user]}, rid, ACS[POST], SP_X, userid=user,
+                                             name_id_policy=samlp.NameIDPolicy(format=NF[fmt], allow_create='true'),
+                                             authn={'class_ref': forge.PASSWORD}, sign_response=False, sign_assertion=False)
+            info = idp.apply_binding(POST, str(resp), ACS[POST], 'relay-1', response=True)
+            msg, _rs = transport(info, POST)
+        except Exception as e:
+            return {'ok': False, 'why': 'idp-could-not-build-response:%s:%s' % (type(e).__name__, str(e)[:80]), 'step': step}
+        obs = oracle.accept_response(sp, msg, binding=POST, outstanding={rid: '/home'}, encoded=True)
+        if not obs['accept']:
+            return {'ok': False, 'why': 'sp-rejected-conforming-response:%s' % obs.get('exc'), 'step': step}
+        text, f = obs['identity']['name_id'][0], obs['identity']['name_id'][1]
+        if f != NF[fmt]:
+            return {'ok': False, 'why': 'name-id-format-differs-from-requested:%s' % f.rsplit(':', 1)[-1], 'step': step}
+        from saml2_tophat import saml
+        try:
+            back = idp.ident.find_local_id(saml.NameID(text=text, format=f, name_qualifier=obs['identity']['name_id'][2], sp_name_qualifier=obs['identity']['name_id'][3]))
+        except Exception as e:
+            back = 'exc:%s' % type(e).__name__
+        if back != user:
+            return {'ok': False, 'why': 'name-id-does-not-belong-to-the-asserted-user:%s' % back, 'step': step}
+        if fmt == 'persistent':
+            if persistent.setdefault(user, text) != text:
+                return {'ok': False, 'why': 'persistent-name-id-changed', 'step': step}
+        if obs['identity']['ava'].get('givenName') != [user]:
+            return {'ok': False, 'why': 'attributes-differ', 'step': step}
+    return {'ok': True, 'why': None}
+
+
 def evaluate(c):
+    if c.get('logins'):
+        return evaluate_logins(c)
     from saml2_tophat import saml
     env.Clock.set(env.BASE)
     env.reset_rng()
@@ -205,7 +260,7 @@ def run(ctx):
     nontriv = set()
     for c, r in zip(cs, res):
         ok += r['ok']
-        if c['sr'] or c['sa'] or c['enc'] or c['values'] != ('plain',):
+        if c['sr'] or c['sa'] or c['enc'] or c['values'] != ('plain',) or c.get('logins'):
             nontriv.add(repr(sorted(c.items())))
         if not r['ok']:
             key = {k: (list(v) if isinstance(v, tuple) else v) for k, v in c.items()}
@@ -218,7 +273,7 @@ def run(ctx):
         'level': 'exploration',
         'coverage': {
             'evaluations': len(cs), 'distinct_nontrivial': len(nontriv), 'exhaustive': True, 'accepted_and_equal': ok,
-            'rule': 'three complete sub-products through create_authn_response -> apply_binding -> independent transport decoder -> parse_authn_request_response inside a world built from mutually generated metadata: (A) sign_response x sign_assertion x encrypt_assertion x encrypted_advice_attributes x binding (POST/Redirect/SOAP) x signature/digest algorithm settings (default, 5 diagonal, 4 mixed) x every SP want_* setting the signing choice satisfies; (B) %d hostile attribute values x value count (1,2,5) x NameID format x {signed response, signed+encrypted assertion}; (C) release-policy lifetime shapes (none, default, per-SP entry with and without own lifetime) x session_not_on_or_after x authenticating authority.  Acceptance is REQUIRED and every field the application reads must equal what was asked (attribute values after .strip())' % len(VALUES),
+            'rule': 'three complete sub-products through create_authn_response -> apply_binding -> independent transport decoder -> parse_authn_request_response inside a world built from mutually generated metadata: (A) sign_response x sign_assertion x encrypt_assertion x encrypted_advice_attributes x binding (POST/Redirect/SOAP) x signature/digest algorithm settings (default, 5 diagonal, 4 mixed) x every SP want_* setting the signing choice satisfies; (B) %d hostile attribute values x value count (1,2,5) x NameID format x {signed response, signed+encrypted assertion} x binding; (D) every sequence of up to 3 (thorough: 4) logins of two users with persistent / transient NameIDPolicy on one Server (identifier built by the IdP from userid): format as requested, identifier maps back to the user, persistent identifier stable; (C) release-policy lifetime shapes (none, default, per-SP entry with and without own lifetime) x session_not_on_or_after x authenticating authority.  Acceptance is REQUIRED and every field the application reads must equal what was asked (attribute values after .strip())' % len(VALUES),
             'samples': [{'case': {k: str(v) for k, v in cs[len(cs) // 2].items()}, 'result': res[len(cs) // 2]}],
         },
         'assumptions': ['values outside the XML Char production, lone surrogates and bare CR are not generated (XML cannot carry them unchanged)', 'xmlsec1 model at the seam'],
